@@ -1,0 +1,108 @@
+//go:build verif
+
+package agessh
+
+// Contracts for govc, the contract verifier under /verif (see /verif/DESIGN.md).
+// Compiled only with -tags verif; comment-only.
+
+//@ const EDLABEL := "age-encryption.org/v1/ssh-ed25519"
+//@ const OAEPLABEL := "age-encryption.org/v1/ssh-rsa"
+//@ pred fpof(pk) := b64raw(sub(sha256(keywire(id(pk))), 0, 4))
+
+//@ func sshFingerprint(pk) (s)
+//@   requires pk != nil
+//@   ensures#val s == fpof(pk)                                                                         [C01 C04 C05 C19]
+//@   modifies nothing
+
+//@ func multiUnwrap(unwrap, stanzas) (fk, err)
+//@   pure unwrap
+//@   requires forall j in 0..len(stanzas) :: stanzas[j] != nil
+//@   loop 1 invariant -1 <= rangeindex && rangeindex < len(stanzas) && (forall j in 0..rangeindex+1 :: wraps(apply(unwrap, 1, stanzas[j]), age.ErrIncorrectIdentity))
+//@   loop 1 decreases len(stanzas) - rangeindex
+//@   ensures#nomatch (forall j in 0..len(stanzas) :: wraps(apply(unwrap, 1, stanzas[j]), age.ErrIncorrectIdentity)) ==> fk == nil && err == age.ErrIncorrectIdentity   [C01 C04]
+//@   ensures#first forall k in 0..len(stanzas) :: (!wraps(apply(unwrap, 1, stanzas[k]), age.ErrIncorrectIdentity) && (forall j in 0..k :: wraps(apply(unwrap, 1, stanzas[j]), age.ErrIncorrectIdentity))) ==> ((apply(unwrap, 1, stanzas[k]) != nil ==> fk == nil && err == apply(unwrap, 1, stanzas[k])) && (apply(unwrap, 1, stanzas[k]) == nil ==> same(fk, apply(unwrap, 0, stanzas[k])) && err == nil))   [C01 C04]
+//@   ensures#nil err != nil ==> fk == nil                                                              [C01 C04]
+//@   modifies nothing
+
+//@ func aeadEncrypt(key, plaintext) (ct, err)
+//@   call chacha20poly1305.New#1 requires same(arg0, key)                                                         [C05]
+//@   call Seal#1 requires arg1 == nil && bytes(arg2) == zeros(12) && len(arg2) == 12 && same(arg3, plaintext) && arg4 == nil   [C05 C06]
+//@   ensures#err err == nil <==> len(key) == 32
+//@   ensures#val err == nil ==> bytes(ct) == seal(old(bytes(key)), zeros(12), old(bytes(plaintext))) && len(ct) == len(plaintext) + 16   [C01 C05]
+//@   ensures#nil err != nil ==> ct == nil
+//@   fresh ct when err == nil
+//@   modifies nothing
+
+//@ func aeadDecrypt(key, ciphertext) (pt, err)
+//@   call chacha20poly1305.New#1 requires same(arg0, key)                                                         [C05]
+//@   call Open#1 requires arg1 == nil && bytes(arg2) == zeros(12) && len(arg2) == 12 && same(arg3, ciphertext) && arg4 == nil   [C05]
+//@   ensures#ok len(key) == 32 ==> (err == nil <==> openok(old(bytes(key)), zeros(12), old(bytes(ciphertext))))   [C01 C04]
+//@   ensures#val err == nil ==> bytes(pt) == open(old(bytes(key)), zeros(12), old(bytes(ciphertext)))               [C01 C04]
+//@   ensures#nil err != nil ==> pt == nil
+//@   fresh pt when err == nil && len(pt) > 0
+//@   modifies nothing
+
+//@ func (*RSARecipient).Wrap(r, fileKey) (stanzas, err)
+//@   requires r.sshKey != nil
+//@   call rsa.EncryptOAEP#1 requires arg1 == rand.Reader && arg2 == r.pubKey && same(arg3, fileKey) && bytes(arg4) == OAEPLABEL   [C05 C06]
+//@   ensures#one err == nil ==> len(stanzas) == 1 && stanzas[0] != nil
+//@   ensures#shape err == nil ==> stanzas[0].Type == "ssh-rsa" && len(stanzas[0].Args) == 1 && stanzas[0].Args[0] == fpof(r.sshKey) && bytes(stanzas[0].Body) == oaepenc(id(r.pubKey), old(bytes(fileKey)), OAEPLABEL, old($draws))   [C01 C05]
+//@   ensures#frame r.sshKey == old(r.sshKey) && r.pubKey == old(r.pubKey)                                         [C20]
+//@   fresh stanzas when err == nil
+
+//@ func (*RSAIdentity).unwrap(i, block) (fk, err)
+//@   requires block != nil && i.sshKey != nil
+//@   call rsa.DecryptOAEP#1 requires arg1 == rand.Reader && arg2 == i.k && same(arg3, block.Body) && bytes(arg4) == OAEPLABEL   [C05]
+//@   ensures#foreign block.Type != "ssh-rsa" ==> err == age.ErrIncorrectIdentity                                  [C01 C04]
+//@   ensures#tag (block.Type == "ssh-rsa" && len(block.Args) == 1 && block.Args[0] != fpof(i.sshKey)) ==> err == age.ErrIncorrectIdentity   [C01 C04]
+//@   ensures#nil err != nil ==> fk == nil                                                                         [C01 C04]
+//@   ensures#ok err == nil ==> block.Type == "ssh-rsa" && block.Args[0] == fpof(i.sshKey) && bytes(fk) == oaepdec(id(i.k), bytes(block.Body), OAEPLABEL)   [C01 C04 C05]
+//@   ensures#frame i.k == old(i.k) && i.sshKey == old(i.sshKey)                                                   [C20]
+
+//@ pred edKey(shared, eph, their) := sub(hkdfstream(shared, cat(eph, their), EDLABEL), 0, 32)
+//@ pred edTweak(pk) := sub(hkdfstream("", keywire(id(pk)), EDLABEL), 0, 32)
+
+//@ func (*Ed25519Recipient).Wrap(r, fileKey) (stanzas, err)
+//@   requires len(r.theirPublicKey) == 32 && r.sshKey != nil
+//@   call rand.Read#1 requires len(arg0) == 32                                                                    [C06]
+//@   call X25519#1 requires bytes(arg0) == csprng(old($draws), 32) && bytes(arg1) == basepoint()                  [C05 C06]
+//@   call X25519#2 requires bytes(arg0) == csprng(old($draws), 32) && same(arg1, r.theirPublicKey)                [C05 C06]
+//@   call hkdf.New#1 requires isfunc(arg0, "crypto/sha256.New") && len(arg1) == 0 && bytes(arg2) == keywire(id(r.sshKey)) && bytes(arg3) == EDLABEL   [C05]
+//@   call X25519#3 requires bytes(arg0) == edTweak(r.sshKey) && bytes(arg1) == x25519(csprng(old($draws), 32), bytes(r.theirPublicKey))   [C05]
+//@   call hkdf.New#2 requires isfunc(arg0, "crypto/sha256.New") && bytes(arg2) == cat(x25519(csprng(old($draws), 32), basepoint()), bytes(r.theirPublicKey)) && bytes(arg3) == EDLABEL   [C05]
+//@   call aeadEncrypt#1 requires same(arg1, fileKey)                                                              [C01 C05]
+//@   ensures#one err == nil ==> len(stanzas) == 1 && stanzas[0] != nil
+//@   ensures#shape err == nil ==> stanzas[0].Type == "ssh-ed25519" && len(stanzas[0].Args) == 2 && stanzas[0].Args[0] == fpof(r.sshKey) && stanzas[0].Args[1] == b64raw(x25519(csprng(old($draws), 32), basepoint()))   [C01 C05]
+//@   ensures#draws $draws == old($draws) + 1                                                                     [C06]
+//@   ensures#frame r.sshKey == old(r.sshKey) && r.theirPublicKey == old(r.theirPublicKey)                         [C20]
+//@   fresh stanzas when err == nil
+
+//@ func (*Ed25519Identity).unwrap(i, block) (fk, err)
+//@   requires block != nil && i.sshKey != nil && len(i.secretKey) == 32 && len(i.ourPublicKey) == 32
+//@   call X25519#1 requires same(arg0, i.secretKey) && bytes(arg1) == unb64raw(block.Args[1]) && len(arg1) == 32  [C05 C14]
+//@   call hkdf.New#1 requires isfunc(arg0, "crypto/sha256.New") && len(arg1) == 0 && bytes(arg2) == keywire(id(i.sshKey)) && bytes(arg3) == EDLABEL   [C05]
+//@   call hkdf.New#2 requires isfunc(arg0, "crypto/sha256.New") && bytes(arg2) == cat(unb64raw(block.Args[1]), bytes(i.ourPublicKey)) && bytes(arg3) == EDLABEL   [C05]
+//@   call aeadDecrypt#1 requires same(arg1, block.Body)                                                           [C05]
+//@   ensures#foreign block.Type != "ssh-ed25519" ==> err == age.ErrIncorrectIdentity                              [C01 C04]
+//@   ensures#tag (block.Type == "ssh-ed25519" && len(block.Args) == 2 && b64rawok(block.Args[1]) && len(unb64raw(block.Args[1])) == 32 && block.Args[0] != fpof(i.sshKey)) ==> err == age.ErrIncorrectIdentity   [C01 C04]
+//@   ensures#nil err != nil ==> fk == nil                                                                         [C01 C04]
+//@   ensures#frame i.secretKey == old(i.secretKey) && i.ourPublicKey == old(i.ourPublicKey) && i.sshKey == old(i.sshKey)   [C20]
+
+//@ func NewEd25519Identity(key) (i, err)
+//@   ensures#nil err != nil ==> i == nil
+//@   fresh i when err == nil
+
+//@ func NewRSAIdentity(key) (i, err)
+//@   ensures#nil err != nil ==> i == nil
+//@   fresh i when err == nil
+
+//@ func (*EncryptedSSHIdentity).Unwrap(i, stanzas) (fileKey, err)
+//@   requires i.pubKey != nil && typeimpl(i.pubKey, "golang.org/x/crypto/ssh.CryptoPublicKey") && (forall j in 0..len(stanzas) :: stanzas[j] != nil)
+//@   loop 1 invariant -1 <= rangeindex && rangeindex < len(stanzas) && !match && $ppcalls == old($ppcalls) && i.decrypted == old(i.decrypted) && old(i.decrypted) == nil && i.pubKey == old(i.pubKey)
+//@   loop 1 invariant#nomatch forall j in 0..rangeindex+1 :: !(stanzas[j].Type == keytype(id(i.pubKey)) && len(stanzas[j].Args) >= 1 && stanzas[j].Args[0] == fpof(i.pubKey))   [C19]
+//@   loop 1 decreases len(stanzas) - rangeindex
+//@   ensures#noprompt (old(i.decrypted) == nil && old(forall j in 0..len(stanzas) :: !(stanzas[j].Type == keytype(id(i.pubKey)) && len(stanzas[j].Args) >= 1 && stanzas[j].Args[0] == fpof(i.pubKey)))) ==> $ppcalls == old($ppcalls) && fileKey == nil && err != nil   [C19]
+//@   ensures#once $ppcalls <= old($ppcalls) + 1                                                                   [C19]
+//@   ensures#cached old(i.decrypted) != nil ==> $ppcalls == old($ppcalls) && i.decrypted == old(i.decrypted)       [C19]
+//@   ensures#errkeeps err != nil ==> i.decrypted == old(i.decrypted)                                               [C19]
+//@   ensures#typednil i.decrypted != old(i.decrypted) ==> id(i.decrypted) != 0                                     [C19 C14]
